@@ -22,14 +22,48 @@ Verdicts(c) ==
             good == IF o.ordered THEN SeqMatch(e, o.rows) ELSE BagMatch(e, o.rows)
         IN [id |-> c.id, p |-> o.p, ok |-> good, exp |-> e]]
 
+(* Metamorphic cases carry the program they were derived from (base: a     *)
+(* sequence of zero or one programs) and the correspondence of predicate    *)
+(* names qmap: Seq([b, v]).  The model-level theorem "the transformation    *)
+(* preserves Den" is checked here, on the specification alone.              *)
+BagEq(a, b) ==
+  \A r \in Range(a) \cup Range(b) :
+     Cardinality({j \in 1..Len(a) : a[j] = r}) = Cardinality({j \in 1..Len(b) : b[j] = r})
+
+Theorem(c) ==
+  IF Len(c.base) = 0 THEN <<>>
+  ELSE LET db == DenDev(c.base[1], Range(c.dev))
+           dv == DenDev(c.prog, Range(c.dev))
+           good == \A k \in 1..Len(c.qmap) :
+                      IF c.qmap[k].ordered
+                      THEN db[c.qmap[k].b] = dv[c.qmap[k].v]
+                      ELSE BagEq(db[c.qmap[k].b], dv[c.qmap[k].v])
+       IN << [id |-> c.id, p |-> "$theorem", ok |-> good, exp |-> <<>>] >>
+
+(* Observed table of the variant = observed table of the base (bags; the   *)
+(* element order inside list values is ignored).  Used to recognise a       *)
+(* disagreement with Den that the variant merely inherits from its base.    *)
+RECURSIVE CanonV(_)
+CanonV(v) == CASE v[1] = "l" -> <<"l", SortVals([k \in 1..Len(v[2]) |-> CanonV(v[2][k])])>>
+               [] OTHER -> v
+CanonRows(rows) == [k \in 1..Len(rows) |-> [f \in DOMAIN rows[k] |-> CanonV(rows[k][f])]]
+SameAsBase(c) ==
+  [k \in 1..Len(c.bobs) |->
+     LET mine == SelectSeq(c.obs, LAMBDA o : o.p = c.bobs[k].p)
+     IN [id |-> c.id, p |-> "$same:" \o c.bobs[k].p,
+         ok |-> Len(mine) = 1 /\ BagEq(CanonRows(mine[1].rows), CanonRows(c.bobs[k].rows)),
+         exp |-> <<>>]]
+
 AllOk(vs) == \A k \in 1..Len(vs) : vs[k].ok
 
 Init == i = 1 /\ TLCSet(1, 0)
 
 Next ==
   /\ i <= Len(Cases)
-  /\ LET vs == Verdicts(Cases[i])
+  /\ LET vs == Verdicts(Cases[i]) \o Theorem(Cases[i])
+         ws == SameAsBase(Cases[i])
      IN /\ \A k \in 1..Len(vs) : PrintT(<<"V", ToJson(vs[k])>>)
+        /\ \A k \in 1..Len(ws) : PrintT(<<"V", ToJson(ws[k])>>)
         /\ IF AllOk(vs) THEN TRUE ELSE TLCSet(1, TLCGet(1) + 1)
   /\ i' = i + 1
 
